@@ -401,3 +401,74 @@ M.contract('contracts.C07_document:lemma_state_is_a_function_of_the_offset',
            and iff(has_line(s1), has_line(s2)) and _line_start_again(s1, orig) and _line_start_again(s2, orig),
            ensures={'same-offset-same-state': lambda result: result},
            raises_only=())
+
+
+# ---- comment / empty-line parser
+
+from pyvc.api import HavocBy
+
+FORWARD = HavocBy(havoc_source_forward)       # loop frames: the source is moved forwards by the body
+
+
+class LinePredicateI(Interface):
+    """a predicate on the text of a line (is_empty_line / is_comment_line at the two call sites)"""
+    methods = {'__call__': Method(returns=Bool, pure=True)}
+
+
+def whole_lines_from(orig, ls, source):
+    """The text of orig from the line start ls up to the end of the line before the current one; up to the end
+    when there is no current line any more.  (In the latter case a text that ends with a newline contributes a
+    final empty line: ParseSource has an empty current line after a final newline, and the loop below, unlike
+    the document parser, goes on while there is a current line, not while not is_at_eof.)"""
+    if has_line(source):
+        return orig[ls:off_of(source, orig) - 1]
+    return orig[ls:]
+
+
+P_CEP = P_SEP + ':StandardSyntaxCommentAndEmptyLineParser'
+
+M.contract(P_CEP + '._consume_and_return_current_line',
+           params=dict(source=PARSE_SOURCE, line_predicate_for_line_to_consume=Iface(LinePredicateI)),
+           ghosts=dict(orig=Str),
+           requires=lambda source, orig: RI(source, orig) and has_line(source),
+           old=lambda source, orig: (ls_of(source, orig), source._current_line_number),
+           modifies=dict(source=PS_FRAME),
+           returns=LINE_SEQUENCE,
+           ensures={
+               'RI': lambda source, orig: RI(source, orig),
+               'at-a-line-start-or-no-current-line': lambda source: (not has_line(source)) or source._column_index == 0,
+               'first-line-number-is-that-of-the-current-line': lambda result, old:
+               result.first_line_number == old[1],
+               'lines-are-the-complete-lines-consumed': lambda result, source, orig, old:
+               len(result.lines) >= 1 and NL.join(result.lines) == whole_lines_from(orig, old[0], source),
+               'following-lines-satisfy-the-predicate': lambda result, line_predicate_for_line_to_consume:
+               forall_range(1, len(result.lines), lambda j: line_predicate_for_line_to_consume(result.lines[j])),
+               'stops-at-the-first-line-that-does-not': lambda source, line_predicate_for_line_to_consume:
+               (not has_line(source)) or not line_predicate_for_line_to_consume(source._current_line_text),
+               'as-many-lines-as-line-numbers-advanced': lambda result, source, old:
+               (not has_line(source)) or source._current_line_number == old[1] + len(result.lines),
+           }, raises_only=())
+
+
+def _consumed_lines_inv(source, orig, lines, old, pred):
+    if not RI(source, orig):
+        return False
+    if len(lines) < 1:
+        return False
+    if has_line(source):
+        if source._column_index != 0:
+            return False
+        if source._current_line_number != old[1] + len(lines):
+            return False
+        if NL.join(lines) + NL != orig[old[0]:off_of(source, orig)]:
+            return False
+    else:
+        if NL.join(lines) != orig[old[0]:]:
+            return False
+    return forall_range(1, len(lines), lambda j: pred(lines[j]))
+
+
+M.loop(P_CEP + '._consume_and_return_current_line', 0,
+       invariant=lambda source, orig, lines, old, line_predicate_for_line_to_consume:
+       _consumed_lines_inv(source, orig, lines, old, line_predicate_for_line_to_consume),
+       modifies={'source': FORWARD, 'lines': MListOf(Str)})
